@@ -324,6 +324,96 @@ example : stripTags (renderSelf (fun _ x => str "<p>" ++ x ++ str "</p>")
   · intro _ b; simp [str, stripTags, stripTagsAux]
   · simp [markupClosedL, markupClosed, ClosedMarkup, stripTags, stripTagsAux]
 
+/-! #### templates as sequences of literal output and content interpolations -/
+
+/-- character data of a piece sequence, given the character data `x` of the interpolated content -/
+def piecesData : List Piece → List Nat → List Nat
+  | [], _ => []
+  | .lit p :: ps, x => stripTags p ++ piecesData ps x
+  | .content :: ps, x => x ++ piecesData ps x
+
+mutual
+/-- the character data a reader must get when templates are piece sequences: literal pieces contribute their
+    own character data, every interpolation the character data of the node's children -/
+def shownP (tpl : Nat → List Piece) : RNode → List Nat
+  | .text m s => if m then stripTags s else textDefault false s
+  | .uni m s => if m then stripTags s else textDefault false s
+  | .elem k cs => piecesData (tpl k) (shownPL tpl cs)
+def shownPL (tpl : Nat → List Piece) : List RNode → List Nat
+  | [] => []
+  | c :: cs => shownP tpl c ++ shownPL tpl cs
+end
+
+/-- every literal piece of every template is complete markup (does not end inside a tag) -/
+def LiteralsClosed (tpl : Nat → List Piece) : Prop := ∀ k p, Piece.lit p ∈ tpl k → ClosedMarkup p
+
+theorem strip_renderPieces (x X : List Nat) (hx : ∀ b, stripTags (x ++ b) = X ++ stripTags b) :
+    ∀ (ps : List Piece), (∀ p, Piece.lit p ∈ ps → ClosedMarkup p) →
+      ∀ b, stripTags (renderPieces x ps ++ b) = piecesData ps X ++ stripTags b
+  | [], _, b => by simp [renderPieces, piecesData]
+  | .lit p :: ps, h, b => by
+    have ih := strip_renderPieces x X hx ps (fun q hq => h q (by simp [hq]))
+    simp only [renderPieces, piecesData, List.append_assoc]
+    rw [h p (by simp), ih]
+  | .content :: ps, h, b => by
+    have ih := strip_renderPieces x X hx ps (fun q hq => h q (by simp [hq]))
+    simp only [renderPieces, piecesData, List.append_assoc]
+    rw [hx, ih]
+
+mutual
+theorem shownP_renderChild (tpl : Nat → List Piece) (hl : LiteralsClosed tpl) :
+    (n : RNode) → markupClosed n → ∀ b, stripTags (renderChild (pieceTemplates tpl) n ++ b) = shownP tpl n ++ stripTags b
+  | .text m s, h, b => by
+    cases m with
+    | false =>
+      simp only [renderChild, shownP, stripTags]
+      exact stripTagsAux_noLt _ _ (escape_no_markup s).1
+    | true =>
+      simp only [markupClosed] at h
+      simpa [renderChild, shownP, textDefault] using h trivial b
+  | .uni m s, h, b => by
+    cases m with
+    | false =>
+      simp only [renderChild, shownP, stripTags]
+      exact stripTagsAux_noLt _ _ (escape_no_markup s).1
+    | true =>
+      simp only [markupClosed] at h
+      simpa [renderChild, shownP, textDefault] using h trivial b
+  | .elem k cs, h, b => by
+    simp only [markupClosed] at h
+    simp only [renderChild, shownP, pieceTemplates]
+    exact strip_renderPieces _ _ (shownP_renderChildren tpl hl cs h) (tpl k) (hl k) b
+theorem shownP_renderChildren (tpl : Nat → List Piece) (hl : LiteralsClosed tpl) :
+    (ns : List RNode) → markupClosedL ns → ∀ b, stripTags (renderChildren (pieceTemplates tpl) ns ++ b) = shownPL tpl ns ++ stripTags b
+  | [], _, b => by simp [renderChildren, shownPL]
+  | c :: cs, h, b => by
+    simp only [markupClosedL] at h
+    simp only [renderChildren, shownPL, List.append_assoc]
+    rw [shownP_renderChild tpl hl c h.1, shownP_renderChildren tpl hl cs h.2]
+end
+
+/-- Templates that are arbitrary sequences of complete literal output (markup *and* fixed words) and
+    interpolations of the rendered content — repeated or dropped as the template pleases — over trees mixing
+    text with complete declared markup: the character data of the output consists of the templates' own
+    character data and, at every interpolation, exactly the escaped text of the leaves below: no leaf
+    contributes anything but its own escaped characters, wherever and however often it is shown. -/
+theorem render_piece_templates (tpl : Nat → List Piece) (hl : LiteralsClosed tpl)
+    (cs : List RNode) (h : markupClosedL cs) (k : Nat) :
+    stripTags (renderSelf (pieceTemplates tpl) (.elem k cs)) = shownPL tpl cs := by
+  have := shownP_renderChildren tpl hl cs h []
+  simpa [renderSelf, stripTags, stripTagsAux] using this
+
+/-- non-vacuity: a caption-like template `<b>T</b>: {{obj}}<i>{{obj}}</i>` with its own words, showing its
+    content twice; the text leaf `<` comes out as `&lt;` both times -/
+example : stripTags (renderSelf (pieceTemplates fun _ => [.lit [60, 98, 62, 84, 60, 47, 98, 62, 58, 32], .content, .lit [60, 105, 62], .content, .lit [60, 47, 105, 62]])
+    (.elem 0 [.elem 0 [.text false [60]]])) = [84, 58, 32, 38, 108, 116, 59, 38, 108, 116, 59] := by
+  rw [render_piece_templates]
+  · decide
+  · intro k p hp
+    simp at hp
+    rcases hp with rfl | rfl | rfl <;> intro b <;> simp [stripTags, stripTagsAux]
+  · simp [markupClosedL, markupClosed]
+
 /-- The clause as the property states it, for a given family of templates `T`: every tree without declared
     markup displays exactly its text leaves.  For the real Jinja2/TAL templates this is NOT a theorem here
     (template expansion is not modelled); it is carried by the document-level oracle `doc12`. -/
